@@ -209,7 +209,25 @@ func (b *builder) probeTerm(p parsley.Parser) parsley.Parser {
 	})
 }
 
+// build wraps every parser of the grammar, when asked to, by a probe that renders the result at the
+// moment it is returned (C07: the rendering must read the same at the end of the parse).
 func (b *builder) build(s *Sexp) parsley.Parser {
+	p := b.buildRaw(s)
+	if b.rec == nil || !b.rec.trackAll {
+		return p
+	}
+	rec := b.rec
+	where := s.Head()
+	return parser.Func(func(ctx *parsley.Context, lrc data.IntMap, pos parsley.Pos) (parsley.Node, data.IntSet, parsley.Error) {
+		res, cp, err := p.Parse(ctx, lrc, pos)
+		if res != nil && len(rec.returned) < 4000 {
+			rec.returned = append(rec.returned, returnedResult{node: res, rendered: renderNode(res), where: fmt.Sprintf("%s at %d", where, pos)})
+		}
+		return res, cp, err
+	})
+}
+
+func (b *builder) buildRaw(s *Sexp) parsley.Parser {
 	a := s.Args()
 	switch s.Head() {
 	case "rune":
